@@ -57,14 +57,17 @@ Definition valid_planb (R0 : repo) (used : list N) (pl : plan) : bool :=
   forallb (fun p => memN p (excl pl)) (rm pl) &&
   forallb (fun h => if memN h (keep pl) then true else sresb [] (excl pl) R0 h) used.
 
-(* PlanPrune's reduction of keepBlobs (prune.go, "if len(plan.repackPacks) != 0"): every handle with an
-   index entry in a pack that is neither in removePacks nor in repackPacks is dropped.  ents = index
-   entries (pack, handle); rmrep = removePacks + repackPacks.  keep_blobs_fixed also skips the
-   (missing) ignorePacks. *)
-Definition keep_blobs (used : list N) (ents : list (N * N)) (rmrep : list N) : list N :=
-  filter (fun h => negb (existsb (fun e => if snd e =? h then negb (memN (fst e) rmrep) else false) ents)) used.
-Definition keep_blobs_fixed (used : list N) (ents : list (N * N)) (rmrep ignore : list N) : list N :=
-  keep_blobs used ents (rmrep ++ ignore).
+(* PlanPrune's reduction of keepBlobs (prune.go, "if len(plan.repackPacks) != 0", as fixed by
+   d2ae2f7f5): every handle with an index entry in a pack that is not excluded (removePacks +
+   repackPacks + the missing ignorePacks) is dropped, the rest is kept for repacking.
+   ents = index entries (pack, handle).  keep_blobs_old is the behaviour before the fix (finding
+   F-C09-1): ignorePacks were not skipped. *)
+Definition keep_blobs (used : list N) (ents : list (N * N)) (ex : list N) : list N :=
+  filter (fun h => negb (existsb (fun e => if snd e =? h then negb (memN (fst e) ex) else false) ents)) used.
+Definition keep_blobs_old (used : list N) (ents : list (N * N)) (rmrep : list N) : list N :=
+  keep_blobs used ents rmrep.
+Definition ents_of (R : repo) : list (N * N) := flat_map (fun ix => snd ix) (idxs R).
+Definition subsetN (a b : list N) : bool := forallb (fun x => memN x b) a.
 
 Definition pair_eqb (a b : N * N) : bool := (fst a =? fst b) && (snd a =? snd b).
 Definition covered (pl : plan) (R : repo) (e : N * N) : bool :=
@@ -169,7 +172,8 @@ Definition check_case (c : case) : nat :=
       else if negb (consistentb R0 used) then 11%nat
       else if negb (valid_planb R0 used pl) then 9%nat
       else if negb (run_ok pl PhA R0 tr) then 10%nat
-      else 0%nat
+      else let k := keep_blobs used (ents_of R0) (excl pl) in
+           if subsetN k (keep pl) && subsetN (keep pl) k then 0%nat else 1%nat
   | CCrash R used c1 c2 c3 =>
       if negb (consistentb R used) then 5%nat
       else if negb c1 then 6%nat else if negb c2 then 7%nat else if negb c3 then 8%nat else 0%nat
